@@ -25,6 +25,36 @@ def s1(profile=None, **kw):
     return d
 
 
+LEVEL_NOTE = ("trusted base: the Go runtime and testing/synctest, the syntactic instrumenter (validated against the repository's own suite), the simulated "
+              "Transport/LogStore/StableStore/SnapshotStore/FSM stubs and the oracles; store operations are atomic and durable once they return nil; "
+              "schedules are explored at blocking points and simulator hooks, not between arbitrary instructions; sampled, not exhaustive")
+
+LEVEL_TEXT = {
+ "C01": "seeded exploration of whole-cluster runs (3-7 servers, elections under partitions, crashes, delays, duplicates, transfers, membership changes); election safety is checked on every scheduling step from three independent observations: reported Leader state per term, the sender of every AppendEntries/InstallSnapshot per term, and the votes granted per (voter, term)",
+ "C02": "seeded exploration; every FSM.Apply/ApplyBatch/StoreConfiguration/Restore call of every server is compared, at the instant it happens, with the committed history first reported anywhere, with the ordering rules (increasing, none skipped, none repeated) and with the canonical state for a restored snapshot",
+ "C03": "seeded exploration with majority crashes and leader isolation; every commit report (ack, FSM hand-off, CommitIndex) defines the committed history; each new leader's durable image must hold all of it, and no store operation may truncate or overwrite it",
+ "C04": "seeded exploration; every StoreLogs on every server is checked against the content first stored for that (index, term) anywhere, terms must not decrease along a log, and a follower that answers Success must hold every entry it was sent",
+ "C05": "seeded exploration with non-voters and membership changes; at the first report of each committed entry the durable images of all servers are inspected for a voter majority under a configuration that can have been in force; commit index monotone, not above last index, and the current-term rule on every leader",
+ "C07": "seeded exploration with concurrent membership clients racing with crashes, partitions and transfers; every stored configuration entry is compared with its predecessor in that log and with the leader's commit state at the instant it is appended",
+ "C08": "seeded exploration; the recorded history of every client call (invoke/return stamped with the global event sequence) is checked against all logs and FSM streams at the end of the run",
+ "C09": "seeded exploration with non-voters and partitions; for every successful VerifyLeader the acknowledgements delivered inside the call window are recounted from the simulator's message log",
+ "C10": "seeded exploration with crashes at arbitrary steps and at chosen store-operation boundaries, all store flavours; every restart is compared with the durable image at the crash",
+ "C11": "seeded exploration with aggressive snapshotting; the durable image of every server is checked after every store operation and every snapshot that becomes durable is compared with the committed history",
+ "C12": "seeded exploration; every run ends with a fault-free period in which the cluster must elect one leader, commit a probe and bring every reachable member to the same state within a bound stated in virtual time",
+ "C13": "seeded exploration; contact times are recomputed from the simulator's message log and compared with how long a server keeps reporting Leader",
+ "C14": "seeded exploration; isolated pre-vote servers' terms are sampled on every step",
+ "C17": "seeded exploration of every API call racing with leadership changes and Shutdown; a caller still blocked when every goroutine is durably blocked is detected exactly (quiescence), not by a wall-clock time-out",
+ "C18": "seeded exploration with many leadership transitions and consumers of random speed on NotifyCh; the notification sequence is compared with the observed transitions",
+ "C20": "seeded exploration; user Restore on the leader racing with Apply and membership changes, followed by a fault-free period",
+}
+
+NOT_CLAIMED = {
+ "C06": "check under construction (scenario S2: one real server, adversarial peers, crash/error sweep over every stable-store operation)",
+ "C15": "check under construction (scenario S3: real FileSnapshotStore on the simulated file system)",
+ "C16": "check under construction (scenario S3: real NetworkTransport on simulated streams)",
+ "C19": "check under construction (scenario S3: real LogCache over a fault-injecting reference backend)",
+}
+
 PROFILES = {}
 for _p in ["C01", "C02", "C03", "C04", "C05", "C07", "C08", "C09", "C10", "C11", "C12", "C13", "C14", "C17", "C18", "C20"]:
-    PROFILES[_p] = {"level": "exploration", "scenarios": [s1()]}
+    PROFILES[_p] = {"level": "exploration", "scenarios": [s1()], "level_text": LEVEL_TEXT[_p]}
